@@ -95,7 +95,7 @@ def check(repo: Repo, rep: Report) -> None:
     rep.require(n >= 3, "paths of from_callback_ handler")
     # the element is what the callback received: the callback's own arguments (or the mapper's result over them); whether a
     # lone value is delivered bare or the values as a list is decided by how many values THE CALLBACK received
-    rep.rule("T5-callback-payload", "from_callback: the delivered value is built from the callback's arguments and shaped by their count", floor=3)
+    rep.rule("T5-callback-payload", "from_callback: the delivered value is built from the callback's arguments and shaped by their count", floor=1)
     cargs = h.node.args.vararg.arg if h.node.args.vararg else None
     derived = {cargs} if cargs else set()
     for n_ in h.direct_nodes():
@@ -117,6 +117,25 @@ def check(repo: Repo, rep: Report) -> None:
                 rep.ob("T5-callback-payload", h, f"`{short(s.node)}` unpacks {nm} only under a test of len({nm})", bool(lens),
                        f"from_callback unpacks `{nm}` into on_next without the decision being made on len({nm}): with a different "
                        f"number of callback values the call fails (TypeError) or a lone value is delivered as a list")
+    # a mapper's result is delivered as it is: un-wrapping a lone value is for the callback's raw arguments only (no mapper)
+    fcb = repo.fn(FC, "from_callback_")
+    mp = next((p_ for p_ in fcb.params if "mapper" in p_), None)
+    from ..rules import expanded_guards as _eg
+    for s in sites(h):
+        n_ = s.node
+        reshape = None
+        if isinstance(n_, ast.Call) and isinstance(n_.func, ast.Attribute) and n_.func.attr == "on_next" and n_.args and isinstance(n_.args[0], ast.Starred):
+            reshape = n_
+        elif isinstance(n_, ast.Assign) and isinstance(n_.targets[0], (ast.Tuple, ast.List)) and isinstance(n_.value, ast.Name) and n_.value.id in derived:
+            reshape = n_
+        elif isinstance(n_, ast.Subscript) and isinstance(n_.value, ast.Name) and n_.value.id in derived and isinstance(n_.ctx, ast.Load) \
+                and isinstance(n_.slice, ast.Constant):
+            reshape = n_
+        if reshape is not None:
+            okm = mp is not None and any(u(e_) == mp and not pol_ for e_, pol_ in _eg(h, s.ctx))
+            rep.ob("T5-callback-payload", h, f"`{short(reshape, 50)}` un-wraps the callback's raw arguments only (no mapper)", okm,
+                   f"from_callback un-wraps a lone value (`{short(reshape, 50)}`) on a path that a mapper's result also takes: a mapper that returns a "
+                   f"one-element list has its element delivered instead of the list")
     csub = repo.fn(FC, "from_callback_.function.subscribe")
     calls = [s for s in sites(csub) if isinstance(s.node, ast.Call) and isinstance(s.node.func, ast.Name) and s.node.func.id == "func"]
     ok = len(calls) == 1 and calls[0].node.args and u(calls[0].node.args[-1]) == "handler" and not calls[0].ctx.loops
